@@ -21,7 +21,7 @@ from ..strategies import Profile
 from ..treeprop import TreeSpec, note, run_tree_property
 
 ID = "C15"
-PROFILE = Profile("python_canonical_medium", long_lengths=(126, 127, 128, 129), max_array=3)
+PROFILE = Profile("python_canonical_medium", long_lengths=(126, 127, 128, 129), max_array=3, long_arrays=True)
 IMMUTABLE_LEAVES = (int, str, bytes, bool, float, type(None), uuid.UUID, datetime.datetime, datetime.timedelta, enum.Enum)
 
 
